@@ -1131,6 +1131,16 @@ fn main() {
                 }
             }
         }
+        // compaction_outputs : a compaction opens three output files in a row; which table numbers are protected afterwards?
+        "compaction_outputs" => {
+            let mut o = raindb::DbOptions::with_memory_env();
+            o.db_path = "db".to_string();
+            o.create_if_missing = true;
+            let db = raindb::DB::open(o).expect("open");
+            let (outputs, in_use) = db.compaction_outputs_for_verif(3);
+            println!("outputs={}", join(&outputs));
+            println!("in_use={}", join(&in_use));
+        }
         "vs_recover" => {
             // a database is created, written and closed; a fresh version set recovers from its files
             use raindb::WriteOptions;
